@@ -34,7 +34,8 @@ def seed():
 # --------------------------------------------------------------------------- build
 def build_harness():
     t0 = time.time()
-    env = dict(os.environ, CARGO_NET_OFFLINE="true")
+    env = dict(os.environ, CARGO_NET_OFFLINE="true", CARGO_TARGET_DIR=os.path.join(HARNESS, "target"))
+    env.pop("RUSTFLAGS", None)   # the hook cfg comes from harness/.cargo/config.toml
     lock = os.path.join(HARNESS, "Cargo.lock")
     if not os.path.exists(lock):
         shutil.copy("/repo/Cargo.lock", lock)
